@@ -744,3 +744,14 @@ CHECKS["C18"]["text"] += (
     "pixel sizes and both orientations: the volume with fix_orientation is "
     "positive, the same for both orientations, the plain volume up to the "
     "sign and within 1% of the ellipsoid's.")
+CHECKS["C04"]["text"] += (
+    " A further family lets a range filter on the root or the first child "
+    "pass all, some or no events (a level is temporarily empty) with manual "
+    "edits on every level.")
+CHECKS["C02"]["text"] += (
+    " The file source holds logs and tables of an earlier export generation "
+    "(names that already carry the prefix); every one must arrive under its "
+    "prefixed name with its own content.")
+CHECKS["C20"]["text"] += (
+    " The same values held in memory (dict-based dataset) are observed "
+    "through a hierarchy child whose parent filters nothing.")
